@@ -8,6 +8,12 @@ COMMON_TRUSTED = [
 ]
 
 CONF = {
+    "C04": {
+        "n": {"quick": 900, "thorough": 12000},
+        "shard": 500,
+        "trusted_base": ["fluent.ConfigHelper's YAML round trip (yaml.v3) for the end-to-end stream"],
+        "assumptions": ["'inputs untouched' is a Go-side snapshot oracle: a pure function cannot express mutation"],
+    },
     "C03": {
         "n": {"quick": 500, "thorough": 8000},
         "shard": 250,
